@@ -5,7 +5,6 @@ from __future__ import annotations
 import time
 from collections.abc import Callable, Generator
 from contextlib import contextmanager
-from functools import cache
 from typing import Any
 
 from ..config import ParserConfig
@@ -34,11 +33,28 @@ type RuleOutcome = RuleResult | ParseException
 type MemoCache = dict[MemoKey, RuleOutcome]
 
 
-@cache
+# NOTE
+#   keyed by the identity of the semantics object: the object given to a parse
+#   is the one whose actions must run, even if it compares equal to another one
+#   seen before. The entry keeps the object alive, so its id is not reused.
+_semantic_actions: dict[tuple[int, str], tuple[Any, Callable[..., Any] | None]] = {}
+
+
 def find_cached_semantic_action(semantics: Any, name: str) -> Callable[..., Any] | None:
     if not semantics:
         return None
 
+    key = (id(semantics), name)
+    cached = _semantic_actions.get(key)
+    if cached is not None and cached[0] is semantics:
+        return cached[1]
+
+    action = _find_semantic_action(semantics, name)
+    _semantic_actions[key] = (semantics, action)
+    return action
+
+
+def _find_semantic_action(semantics: Any, name: str) -> Callable[..., Any] | None:
     for rulename in (name, safe_name(name), name.strip('_'), f'_{name}', f'_{name}_'):
         action = getattr(semantics, safe_name(rulename), None)
         if callable(action):
